@@ -133,6 +133,20 @@ pub fn run<W: WorldDriver>(a: usize, start_cap: usize) -> Result<BoundaryStats, 
     let d = W::dump(&w, a);
     rep_invariant(&d, infos[a].id).map_err(|m| format!("representation invariant at the limit: {}", m))?;
     drop(d);
+    // a world at the limit can be cloned like any other (C13: same len and capacity, same handles)
+    match catch(|| W::clone_world(&w)) {
+        Ok(mut c) => {
+            check_intact(&mut c, &samples, "in a clone of the world holding 16777216 entities")?;
+            let mut c2 = W::construct(Ctor::New, &vec![0usize; infos.len()]);
+            match catch(|| W::clone_from_world(&mut c2, &w)) {
+                Ok(()) => check_intact(&mut c2, &samples, "after clone_from of the world holding 16777216 entities")?,
+                Err(m) => return Err(format!("clone_from of a world at the capacity limit panicked: {}", m)),
+            }
+            drop(c2);
+            drop(c);
+        }
+        Err(m) => return Err(format!("cloning a world at the capacity limit panicked: {}", m)),
+    }
     drop(w);
     Ok(st)
 }
